@@ -83,6 +83,10 @@ def childiter_of(name):
         return lambda kids: list(reversed(kids))
     if name == "filter":
         return lambda kids: [k for i, k in enumerate(kids) if i % 2 == 0]
+    if name == "iter":  # an always-truthy, one-shot iterator (like the built-in reversed)
+        return lambda kids: iter(list(kids))
+    if name == "revgen":
+        return lambda kids: (k for k in reversed(list(kids)))
     if name == "tail":  # drops the first child: an only child disappears, its parent is exported without 'children'
         return lambda kids: list(kids)[1:]
     raise ValueError(name)
@@ -147,11 +151,12 @@ def tree_state(nodes):
 
 
 def structural_copy(d):
+    """Order-preserving picture of a nested dictionary: key order and the identity of the values are part of it."""
     if isinstance(d, dict):
-        return {k: structural_copy(v) if k == "children" else v for k, v in d.items()}
+        return [(k, structural_copy(v) if k == "children" else ("value", id(v))) for k, v in d.items()]
     if isinstance(d, list):
         return [structural_copy(x) for x in d]
-    return d
+    return ("value", id(d))
 
 
 def isomorphic(node, data, nodecls, path="root"):
@@ -183,10 +188,12 @@ def strip_empty_children(d):
 
 
 def decode_dict(spec):
-    d = {k: values.decode(v) for k, v in spec["attrs"]}
+    """The 'children' entry sits at position spec['pos'] among the keys (exporters put it last, hand-written data need not)."""
+    items = [(k, values.decode(v)) for k, v in spec["attrs"]]
     if spec.get("children") is not None:
-        d["children"] = [decode_dict(c) for c in spec["children"]]
-    return d
+        pos = min(spec.get("pos", len(items)), len(items))
+        items.insert(pos, ("children", [decode_dict(c) for c in spec["children"]]))
+    return dict(items)
 
 
 def count_nodes(spec):
@@ -237,7 +244,7 @@ def _tree_once(case, acc, nodes):
     nodecls = NODECLS[case["cls"]]
     snapshot = structural_copy(got)
     root = DictImporter(nodecls=nodecls).import_(got)
-    if structural_copy(got) != snapshot or list(got.keys()) != list(snapshot.keys()):
+    if structural_copy(got) != snapshot:
         raise Violation("import-modifies-argument", "import_ changed the dictionary it was given")
     isomorphic(root, exp, nodecls)
     if root.parent is not None:
@@ -299,6 +306,7 @@ def dict_spec(draw, cls, depth=0):
     if cls == "Node" and not any(k == "name" for k, _ in spec["attrs"]):
         spec["attrs"].append(["name", {"t": "str", "v": "n"}])
     kind = draw(st.integers(0, 3)) if depth < 3 else 0
+    spec["pos"] = draw(st.integers(0, 5))
     if kind == 1:
         spec["children"] = []
     elif kind >= 2:
@@ -320,7 +328,7 @@ def random_cases(draw):
         "attrs": [draw(attr_list(cls)) for _ in range(size)],
         "start": draw(st.one_of(st.just(0), st.integers(0, size - 1))),
         "attriter": draw(st.sampled_from([None, "sorted", "keyfilter", "genfilter"])),
-        "childiter": draw(st.sampled_from(["list", "reversed", "filter", "tail"])),
+        "childiter": draw(st.sampled_from(["list", "reversed", "filter", "tail", "iter", "revgen"])),
         "dictcls": draw(st.sampled_from(["dict", "OrderedDict", "MyDict"])),
         "maxlevel": draw(st.one_of(st.none(), st.integers(0, 6))),
         "mutations": draw(strategies.tree_mutations(max_ops=2, rename_values=st.integers(0, 5))),
@@ -339,7 +347,7 @@ def _enum_cases(max_nodes, index, count):
                 continue
             for maxlevel in [None] + list(range(0, height + 3)):
                 for attriter in (None, "sorted", "keyfilter"):
-                    for childiter in ("list", "reversed", "filter", "tail"):
+                    for childiter in ("list", "reversed", "filter", "tail", "iter", "revgen"):
                         for dictcls in ("dict", "OrderedDict", "MyDict"):
                             yield {"kind": "tree", "cls": ["AnyNode", "Node", "AttrNM", "LenAnyNode", "EqAnyNode"][k % 5], "shape": forest.to_list(shape), "attrs": [pattern[(i + k) % 3] for i in range(size)], "start": start, "attriter": attriter, "childiter": childiter, "dictcls": dictcls, "maxlevel": maxlevel}
 
@@ -361,4 +369,4 @@ def run_task(task, acc):
 
 
 def evidence_extra(total, tier):
-    return {"exhaustive_subdomain": "all shapes <= %d nodes x start x every maxlevel x 3 attriters x 4 childiters x 3 dictcls with a fixed attribute pattern" % (4 if tier == "quick" else 6)}
+    return {"exhaustive_subdomain": "all shapes <= %d nodes x start x every maxlevel x 3 attriters x 6 childiters x 3 dictcls with a fixed attribute pattern" % (4 if tier == "quick" else 6)}
